@@ -9,6 +9,7 @@ import (
 	"go/token"
 	"math/big"
 	"path/filepath"
+	"reflect"
 	"strings"
 	"unicode/utf8"
 )
@@ -260,6 +261,11 @@ func (tr *gtTr) expr(e ast.Expr, env *venv) ex {
 				}
 			}
 		}
+		if _, isId := unparen(x.X).(*ast.Ident); !isId {
+			if a := tr.expr(x.X, env); a.typ.kind == kStruct && a.typ.storable() {
+				return tr.project(a, x.Sel.Name)
+			}
+		}
 		gtFail("selector %s is outside the subset", gtExprText(x))
 	case *ast.CompositeLit:
 		if k, ok := tr.valueKindLit(x); ok {
@@ -273,8 +279,12 @@ func (tr *gtTr) expr(e ast.Expr, env *venv) ex {
 			return ex{code: name, typ: tValue}
 		}
 		if x.Type != nil {
-			if t := tr.g.resolveTypeSoft(tr.p, tr.f, x.Type, 0); t.kind == kMap && t.supported() {
+			t := tr.g.resolveTypeSoft(tr.p, tr.f, x.Type, 0)
+			if t.kind == kMap && t.supported() {
 				return tr.mapLit(x, t, env)
+			}
+			if t.kind == kStruct && t.storable() {
+				return tr.structLit(x, t, env)
 			}
 		}
 		gtFail("composite literal %s is outside the subset here", gtExprText(x.Type))
@@ -285,6 +295,11 @@ func (tr *gtTr) expr(e ast.Expr, env *venv) ex {
 	case *ast.FuncLit:
 		gtFail("function literal is outside the subset")
 	case *ast.StarExpr:
+		if id, ok := unparen(x.X).(*ast.Ident); ok {
+			if v := env.lookup(id.Name); v != nil && v.ptr && v.typ.kind != kStruct {
+				return tr.useVar(v) // *s for a receiver s *T with T a named slice / map type
+			}
+		}
 		gtFail("pointer dereference is outside the subset")
 	}
 	gtFail("expression %T is outside the subset", e)
@@ -1135,8 +1150,8 @@ func (tr *gtTr) index(x *ast.IndexExpr, env *venv) ex {
 
 // s[lo:hi] on a string / []byte: None when the bounds are out of range (Go panics)
 func (tr *gtTr) slice(x *ast.SliceExpr, env *venv) ex {
-	if x.Slice3 {
-		gtFail("three-index slice is outside the subset")
+	if x.Slice3 && (x.High == nil || x.Max == nil || gtExprString(x.High) != gtExprString(x.Max)) {
+		gtFail("three-index slice other than s[lo:hi:hi] is outside the subset")
 	}
 	s := tr.expr(x.X, env)
 	if s.typ.kind != kString && s.typ.kind != kSlice {
@@ -1257,4 +1272,119 @@ func (tr *gtTr) mapLit(x *ast.CompositeLit, t *gtype, env *venv) ex {
 		code = "(" + set + " " + k.code + " " + v.code + " " + code + ")"
 	}
 	return ex{binds: binds, code: code, typ: t, fresh: true}
+}
+
+func gtExprString(e ast.Expr) string {
+	var sb strings.Builder
+	ast.Fprint(&sb, nil, e, func(name string, v reflect.Value) bool {
+		return name != "NamePos" && name != "ValuePos" && name != "OpPos" && name != "Lparen" && name != "Rparen" && name != "Lbrack" && name != "Rbrack" && name != "Obj"
+	})
+	return sb.String()
+}
+
+// structPattern: the pattern that binds field name of a struct value as fld_<name> (the others as _).
+func structPattern(t *gtype, names map[string]bool) string {
+	var ps []string
+	for _, fl := range t.fields {
+		if names[fl.name] {
+			ps = append(ps, "fld_"+fl.name)
+		} else {
+			ps = append(ps, "_")
+		}
+	}
+	if len(ps) == 1 {
+		return ps[0]
+	}
+	return "'(" + strings.Join(ps, ", ") + ")"
+}
+
+// project: field name of a struct value (a tuple)
+func (tr *gtTr) project(a ex, name string) ex {
+	for _, fl := range a.typ.fields {
+		if fl.name == name {
+			if fl.typ.usesValue() {
+				tr.fn.usesV = true
+			}
+			return ex{binds: a.binds, code: "(let " + structPattern(a.typ, map[string]bool{name: true}) + " := " + a.code + " in fld_" + name + ")", typ: fl.typ}
+		}
+	}
+	gtFail("%s has no field %s", a.typ.name, name)
+	return ex{}
+}
+
+// withField: the struct value a with field name replaced by v
+func (tr *gtTr) withField(a ex, name string, v ex) ex {
+	all := map[string]bool{}
+	var vals []string
+	found := false
+	for _, fl := range a.typ.fields {
+		all[fl.name] = true
+		if fl.name == name {
+			found = true
+			if fl.typ.kind == kValue {
+				v = tr.toValue(v, "field")
+			}
+			if v.typ.kind != fl.typ.kind {
+				gtFail("assignment of a %s to field %s of type %s", v.typ.name, name, fl.typ.name)
+			}
+			vals = append(vals, v.code)
+		} else {
+			vals = append(vals, "fld_"+fl.name)
+		}
+	}
+	if !found {
+		gtFail("%s has no field %s", a.typ.name, name)
+	}
+	delete(all, name)
+	return ex{binds: mergeBinds(a.binds, v.binds), code: "(let " + structPattern(a.typ, all) + " := " + a.code + " in " + tupleOf(vals) + ")", typ: a.typ}
+}
+
+// T{a, b} / T{f: a, g: b} for a struct type whose values are tuples: every field must be given
+func (tr *gtTr) structLit(x *ast.CompositeLit, t *gtype, env *venv) ex {
+	vals := make([]string, len(t.fields))
+	var binds []gbind
+	set := func(i int, e ast.Expr) {
+		v := tr.expr(e, env)
+		ft := t.fields[i].typ
+		if ft.kind == kValue {
+			v = tr.toValue(v, "struct literal")
+		}
+		if v.typ.kind != ft.kind {
+			gtFail("struct literal: a %s for field %s of type %s", v.typ.name, t.fields[i].name, ft.name)
+		}
+		if v.typ.kind == kInt && v.typ.untyped && v.k != nil && !fitsInt(v.k, ft) {
+			gtFail("struct literal: constant %s overflows %s", v.k, ft.name)
+		}
+		binds = mergeBinds(binds, v.binds)
+		vals[i] = v.code
+	}
+	for i, el := range x.Elts {
+		if kv, ok := el.(*ast.KeyValueExpr); ok {
+			id, _ := kv.Key.(*ast.Ident)
+			found := false
+			for j, fl := range t.fields {
+				if id != nil && fl.name == id.Name {
+					set(j, kv.Value)
+					found = true
+				}
+			}
+			if !found {
+				gtFail("struct literal: unknown field")
+			}
+			continue
+		}
+		if i >= len(t.fields) {
+			gtFail("struct literal: too many values")
+		}
+		set(i, el)
+	}
+	for i, v := range vals {
+		if v == "" {
+			vals[i] = zeroOf(t.fields[i].typ)
+		}
+	}
+	if t.usesValue() {
+		tr.fn.usesV = true
+	}
+	return ex{binds: binds, code: tupleOf(vals), typ: t, fresh: true}
 }
